@@ -5,10 +5,11 @@ import json
 import sys
 
 pid, wt, n = sys.argv[1], sys.argv[2], int(sys.argv[3]) if len(sys.argv) > 3 else 2
-round2 = len(sys.argv) > 4 and sys.argv[4] in ("round2", "round3", "round4", "round5")
-round3 = len(sys.argv) > 4 and sys.argv[4] in ("round3", "round4", "round5")
-round4 = len(sys.argv) > 4 and sys.argv[4] in ("round4", "round5")
-round5 = len(sys.argv) > 4 and sys.argv[4] == "round5"
+round2 = len(sys.argv) > 4 and sys.argv[4] in ("round2", "round3", "round4", "round5", "round6")
+round3 = len(sys.argv) > 4 and sys.argv[4] in ("round3", "round4", "round5", "round6")
+round4 = len(sys.argv) > 4 and sys.argv[4] in ("round4", "round5", "round6")
+round5 = len(sys.argv) > 4 and sys.argv[4] in ("round5", "round6")
+round6 = len(sys.argv) > 4 and sys.argv[4] == "round6"
 for l in open("/verif/properties.jsonl"):
     p = json.loads(l)
     if p["id"] == pid:
@@ -44,6 +45,12 @@ if round5:
               "arithmetic that is only right for one dtype or one sign, orderings of two statements that matter only in one branch, "
               "and bookkeeping that goes wrong only the second time something happens (second wrap-around, second episode, second "
               "task switch, second call).")
+if round6:
+    extra += (" A fifth round is done; also used already: exact ties of a maximiser, float64 observations or action spaces, only one of "
+              "two optional arguments supplied, a second run with the same logger / a restarted step counter, exp(a)/exp(b) instead of "
+              "exp(a-b), softplus rewrites that cancel, batch-wide instead of per-row reductions, reward models that ignore the observation, "
+              "float32 cumulative sums that end below one, state dropped from a pickle and re-derived, unseeded observation-space samplers. "
+              "You have little time: make ONE change per item quickly (about ten minutes each), prefer small diffs.")
 print(f"""You are given a git worktree of the Python repository mlaux1/rl-blox (a JAX/Flax toolbox of reinforcement-learning algorithms) at {wt}. Work ONLY inside {wt} (never touch /repo, never look at /verif). The package is installed in editable mode from another directory, so ALWAYS run python as `cd {wt} && PYTHONPATH={wt} JAX_PLATFORMS=cpu /venv/bin/python ...` and confirm once that `import rl_blox; print(rl_blox.__file__)` points into {wt}.
 
 Here is a semantic property that the library is supposed to satisfy:
